@@ -30,6 +30,7 @@ class StubPolicy:
         self.tables = {"svd": [], "qr": [], "solve": [], "eigh": [], "lstsq": []}  # (arg array, outputs): input-from-output generation
         self.seed_streams = {}
         self.global_stream = None
+        self.int_draw_limit = None  # bound on integer draws per stream: paths that need more are outside the stated bound (dropped)
         self.rng = None  # None: s_check_random_state below | callable(seed): e.g. the real Backend.check_random_state (C16)
 
 
@@ -389,6 +390,9 @@ class SymRandomState(_REAL_RANDOMSTATE):
 
     def _int_draw(self, low, high, size):
         """integer draws fork over their finite range"""
+        self._vt_nint = getattr(self, "_vt_nint", 0) + 1
+        if POLICY.int_draw_limit is not None and self._vt_nint > POLICY.int_draw_limit:
+            sym.CTX._trip(sym.Abort())  # rejection-sampling loops (redraw on collision) are explored up to the stated number of draws
         raw = self._draw(size, kind="i")
         scalar = not isinstance(raw, np.ndarray)
         arr = np.asarray(raw, dtype=object).reshape(-1)
@@ -408,6 +412,12 @@ class SymRandomState(_REAL_RANDOMSTATE):
     def randint(self, low, high=None, size=None, dtype=int):
         if high is None:
             low, high = 0, low
+        if np.ndim(low) or np.ndim(high):  # array-valued bounds: one draw per element (NumPy broadcasting, size=None only)
+            if size is not None:
+                raise NotImplementedError("randint with array bounds and size is not modelled")
+            lo_b, hi_b = np.broadcast_arrays(np.asarray(low, dtype=int), np.asarray(high, dtype=int))
+            out = np.array([self._int_draw(int(l), int(h), None) for l, h in zip(lo_b.ravel(), hi_b.ravel())], dtype=int)
+            return out.reshape(lo_b.shape)
         return self._int_draw(int(low), int(high), size)
 
     def choice(self, a, size=None, replace=True, p=None):
